@@ -343,7 +343,12 @@ func wnWorkload(ctx *core.Ctx, judge func(cs *core.Case, env *Env, d *wnDoc, out
 				// AllowUnsafe(true): script and style are ordinary elements (allowed, or disallowed skip elements)
 				ops = append(ops, spec.Op{K: spec.KUnsafe, B: true})
 			}
-			env = NewEnv(ops)
+			if cs.Index%4 == 2 && lowerOnlyASCII(ops) {
+				// names given in upper/mixed case: the builders are documented to be case-insensitive
+				env = NewEnvCased(ops, randCase(cs.R))
+			} else {
+				env = NewEnv(ops)
+			}
 		}
 		names := wnNames(env)
 		lc := core.LocalCounts{}
